@@ -17,7 +17,7 @@ enum OpCode : uint8_t {
 	OP_IMMEDIATE,    // a = destination, pay
 	OP_PLAN_APPEND,  // a = origin, b = destination, pay
 	OP_PLAN_CLEAR,
-	OP_PLAN_REMOVE,  // a = bit mask over iteration positions (pos % 8) to remove through the iterator
+	OP_PLAN_REMOVE,  // a = bit mask over iteration positions (pos % 8) to remove through the iterator; b & 1: append up to two tasks right after the first removal, before the iterator advances
 	OP_SUCCEED,      // a = state id
 	OP_FAIL,         // a = state id
 	OP_ENTER,        // manual activation
@@ -29,6 +29,7 @@ enum OpCode : uint8_t {
 	OP_RECONSTRUCT,  // destroy + re-construct inst, a = new fill byte
 	OP_LOGGER,       // a&1: attach / detach
 	OP_SETCONTEXT,   // pointer contexts only: setContext(&ctxObj[a % 3])
+	OP_MOVE,         // relocate the instance: move-construct it into a temporary, destroy the husk, move-construct it back (everything must survive)
 	OP_COUNT,
 	OP_OBSERVE = 100 // pseudo-op: pure observation bracket emitted by the runner (never decoded from a case)
 };
@@ -48,6 +49,7 @@ enum ActKind : uint8_t {
 	ACT_REQUEST_FWD,  // x = destination; the payload is passed BY REFERENCE to library-owned storage: y % 4 = 0 control.request(), 1 pendingTransition() (guards),
 	                  // 2 currentTransition(), 3 previousTransitions(); recorded in the trace as an ordinary request carrying that payload (plain changeTo if there is none)
 	ACT_LOGGER,       // x & 1: attach / detach the logger from inside the callback
+	ACT_M_REQUEST,    // changeTo / changeWith called on the MACHINE (not the control) from inside the callback: x = destination, pay; the requester is nobody
 	ACT_COUNT
 };
 static constexpr uint8_t ACT_CHAIN = 0x80;   // next action belongs to the same callback (max 3 per callback)
@@ -126,12 +128,12 @@ inline bool writeFile(const char* path, const std::vector<uint8_t>& d) {
 
 inline const char* opName(uint8_t code) {
 	static const char* n[] = {"update", "react", "query", "change", "immediate", "plan.append", "plan.clear", "plan.remove",
-		"succeed", "fail", "enter", "exit", "save", "load", "replay", "copy", "reconstruct", "logger", "setContext"};
+		"succeed", "fail", "enter", "exit", "save", "load", "replay", "copy", "reconstruct", "logger", "setContext", "move"};
 	if (code == OP_OBSERVE) return "observe";
 	return n[code % OP_COUNT];
 }
 inline const char* actName(uint8_t kind) {
-	static const char* n[] = {"-", "request", "cancel", "succeed()", "fail()", "succeed(id)", "fail(id)", "plan.append", "plan.clear", "plan.remove", "request+", "request&", "logger"};
+	static const char* n[] = {"-", "request", "cancel", "succeed()", "fail()", "succeed(id)", "fail(id)", "plan.append", "plan.clear", "plan.remove", "request+", "request&", "logger", "machine.request"};
 	return n[(kind & ACT_KIND_MASK) % ACT_COUNT];
 }
 
